@@ -210,5 +210,15 @@ Fixpoint first_parencolon (s : str) : option (str * str) :=
            end
   end.
 
+(* drop the blank lines at the end of a list of lines *)
+Fixpoint rstrip_blank (cs : list str) : list str :=
+  match cs with
+  | [] => []
+  | c :: r => match rstrip_blank r with
+              | [] => match c with [] => [] | _ => [c] end
+              | r' => c :: r'
+              end
+  end.
+
 (* string literals *)
 Definition s_of (s : string) : str := list_ascii_of_string s.
